@@ -290,6 +290,18 @@ SESSION = {
    "exprs": {"connection_id in self._connections": ("connection_is_known", "bool")}},
  ]}
 
+# ---- reward update ----
+RW = "src/primaite/game/agent/rewards.py"
+REWARD = {
+ "enum_files": [], "floats_exact": True,
+ "methods": [
+  {"path": RW, "cls": "RewardFunction", "fn": "update", "ret": "Z", "drop_params": ["state", "last_action_response"],
+   "erase_locals": ["comp"],
+   "folds": {"self.reward_components": {"items": "component_items",
+             "fields": {"comp_and_weight[1]": ("weight", "Z"),
+                        "comp.calculate(state=state, last_action_response=last_action_response)": ("component_value", "Z")}}}},
+ ]}
+
 GROUPS = {
  "software": dict(SOFTWARE, gen="Gen/GenSoftware.v", eq="Proofs/GenEqSoftware.vo"),
  "killchain": dict(KILLCHAIN, gen="Gen/GenKillChain.v", eq="Proofs/GenEqKillChain.vo"),
@@ -307,6 +319,7 @@ GROUPS = {
  "nmneobs": dict(NMNEOBS, gen="Gen/GenNmneObs.v", eq="Proofs/GenEqNmneObs.vo"),
  "nodescan": dict(NODESCAN, gen="Gen/GenNodeScan.v", eq="Proofs/GenEqNodeScan.vo"),
  "sessiongate": dict(SESSION, gen="Gen/GenSession.v", eq="Proofs/GenEqSession.vo"),
+ "rewardsum": dict(REWARD, gen="Gen/GenReward.v", eq="Proofs/GenEqReward.vo"),
 }
 for _g in GROUPS.values():
     _g["functions"] = ["%s.%s" % (m["cls"], m["fn"]) for m in _g["methods"]]
